@@ -343,6 +343,9 @@ void Runner::on_park(Thread *t, Kind k) {
          fmt("nonblocking %s parked inside %s", op_name[op.kind], kind_name[k]), t->op);
   } else if ((op.kind == OP_DRAIN || op.kind == OP_RUN) && (k == K_read || k == K_write) && tpos.size() == 1) {
     viol("C16", "drain-blocked-in-read", "", "drain/run parked inside read(): it only reads streams poll reported ready, so it can wait only in poll (where the deadline applies)", t->op);
+  } else if (op.kind == OP_READ && k == K_read && t->op_read_bytes > 0) {
+    // a read waits "only until data or end-of-file": with data already in hand it has nothing left to wait for
+    viol("C17", "read-waits-with-data-in-hand", "", fmt("blocking read parked in read() again after it had already received %llu bytes", (unsigned long long) t->op_read_bytes), t->op);
   } else if (op.kind == OP_READ && k != K_read) {
     viol("C17", "read-waits-for-something-else", fmt("in=%s", kind_name[k]), fmt("blocking read parked inside %s", kind_name[k]), t->op);
   } else if (op.kind == OP_WRITE && k != K_write) {
@@ -476,7 +479,7 @@ RunResult run_plan(const Plan &plan, const RunOpts &opts) {
   r.out.probes[P_getcwd_grew] += K->n_getcwd_erange;
   r.out.probes[P_data_at_death] += K->n_data_at_death;
   r.out.probes[P_descendant_left] += K->n_descendants;
-  r.out.probes[P_wall_clock_stepped] += K->n_stepped_reads ? 1 : 0;
+  r.out.probes[P_wall_clock_stepped] += K->w.clock_step_at_ms >= 0 && K->now_ns >= K->w.clock_step_at_ms * 1000000 ? 1 : 0;  // whether or not the library reads that clock
   r.out.probes[P_reoccupied] += K->reoccupied.size();
   for (auto &f : K->faults) {
     if (!f.fired || f.err != EINTR) continue;
